@@ -5,9 +5,11 @@ import (
 	"encoding/hex"
 	"encoding/json"
 	"fmt"
+	"math"
 	"os"
 	"reflect"
 	"regexp"
+	"sort"
 	"strconv"
 	"strings"
 	"sync"
@@ -48,6 +50,7 @@ type DEv struct {
 	Szok int    `json:"szok"`
 	Errc int    `json:"errc"`
 	Stab int    `json:"stab"` // results returned by earlier calls are still intact after this call
+	Mto  int    `json:"mto"`  // extval: MarshalTo filled exactly Size() bytes of a poisoned buffer, equal to Marshal's output
 	// extensions
 	Has       []int  `json:"has"`
 	Rthas     []int  `json:"rthas"`
@@ -601,7 +604,8 @@ func (d *Driver) msgTypeConc(sf, key string, mk func() interface{}, G int) {
 var extKinds = [][3]string{{"int32", "string", "msg"}, {"enum", "bytes", "sint64"}, {"bool", "double", "fixed64"}, {"int64", "float", "uint64"}, {"sint32", "fixed32", "msg"}}
 
 var extNumber = map[string]int{"int32": 100, "int64": 101, "uint64": 102, "sint32": 103, "sint64": 104, "fixed32": 105, "fixed64": 106, "bool": 107,
-	"string": 108, "bytes": 109, "double": 110, "float": 111, "msg": 120, "enum": 121}
+	"string": 108, "bytes": 109, "double": 110, "float": 111, "uint32": 112, "sfixed32": 113, "sfixed64": 114, "msg": 120, "enum": 121,
+	"int32@2": 150, "string@2": 151, "int64@f": 160, "msg@f": 161}
 
 // extGoValue builds the Go value SetExtension expects for (kind, value id) on the given flavour.
 func (d *Driver) extGoValue(ti TypeInfo, ext interface{}, kind string, id int) interface{} {
@@ -615,10 +619,59 @@ func (d *Driver) extGoValue(ti TypeInfo, ext interface{}, kind string, id int) i
 		return p.Interface()
 	}
 	pick := func(a, b interface{}) interface{} {
-		if id == 1 {
+		if id%2 == 1 {
 			return a
 		}
 		return b
+	}
+	if i := strings.IndexByte(kind, '@'); i >= 0 {
+		kind = kind[:i] // the same kind declared in another scope
+	}
+	if id > 2 {
+		// value ids 3 and 4: the zero value and an extreme one
+		z := id == 3
+		zv := func(zero, ext interface{}) interface{} {
+			if z {
+				return scalar(zero)
+			}
+			return scalar(ext)
+		}
+		switch kind {
+		case "int32":
+			return zv(int32(0), int32(math.MinInt32))
+		case "sint32":
+			return zv(int32(0), int32(math.MinInt32))
+		case "sfixed32":
+			return zv(int32(0), int32(math.MinInt32))
+		case "int64":
+			return zv(int64(0), int64(math.MinInt64))
+		case "sint64":
+			return zv(int64(0), int64(math.MinInt64))
+		case "sfixed64":
+			return zv(int64(0), int64(math.MinInt64))
+		case "uint32":
+			return zv(uint32(0), uint32(math.MaxUint32))
+		case "fixed32":
+			return zv(uint32(0), uint32(1<<31))
+		case "uint64":
+			return zv(uint64(0), uint64(1<<63))
+		case "fixed64":
+			return zv(uint64(0), uint64(1<<63))
+		case "bool":
+			return zv(false, true)
+		case "double":
+			return zv(float64(0), math.Inf(-1))
+		case "float":
+			return zv(float32(0), float32(math.Inf(1)))
+		case "string":
+			return zv("", strings.Repeat("x", 200))
+		case "bytes":
+			if z {
+				return []byte{}
+			}
+			return bytes.Repeat([]byte{0xff}, 130)
+		}
+		id = id - 2 // enum, msg: the two base values again
 	}
 	switch kind {
 	case "int32":
@@ -631,6 +684,12 @@ func (d *Driver) extGoValue(ti TypeInfo, ext interface{}, kind string, id int) i
 		return scalar(pick(int64(-5), int64(1<<40)))
 	case "uint64":
 		return scalar(pick(uint64(1), ^uint64(0)))
+	case "uint32":
+		return scalar(pick(uint32(300), ^uint32(0)))
+	case "sfixed32":
+		return scalar(pick(int32(-3), int32(1<<30)))
+	case "sfixed64":
+		return scalar(pick(int64(-3), int64(1<<50)))
 	case "fixed32":
 		return scalar(pick(uint32(3), ^uint32(0)))
 	case "fixed64":
@@ -931,6 +990,104 @@ func dynExtType(num int32) protoreflect.ExtensionType {
 		panic(err)
 	}
 	return dynamicpb.NewExtensionType(f.Extensions().Get(0))
+}
+
+// FamExtVal: values of proto2 extensions through the generated code (C04 / C05 / C06).  The abstract-message walkers do not
+// know extensions, so extendable corpus messages are built with the owning runtime's extension API: every extension alone
+// at four values (two ordinary ones, the zero value, an extreme one), and random subsets; ordinary fields set or unset.
+//   szok : csproto.Size = len(csproto.Marshal)                  mto: MarshalTo fills exactly Size() bytes, same bytes
+//   x1   : the owning runtime decodes csproto's bytes to an equal message
+//   x2   : csproto.Unmarshal decodes the owning runtime's bytes to an equal message
+func (d *Driver) FamExtVal(nrand int, prop string) {
+	for _, ti := range d.Types {
+		if ti.Exts == nil {
+			continue
+		}
+		d.W.NextGroup()
+		rt := runtimeOf(ti.Flavour)
+		var kinds []string
+		for k := range ti.Exts {
+			kinds = append(kinds, k)
+		}
+		sort.Strings(kinds)
+		one := func(sel map[string]int, withFields bool, label string) {
+			var setKinds []string
+			for _, k := range kinds {
+				if sel[k] != 0 {
+					setKinds = append(setKinds, fmt.Sprintf("%s=%d", k, sel[k]))
+				}
+			}
+			e := &DEv{C: "extrt", Op: prop, Fl: specFlavour(ti.Flavour), Key: ti.Key, Mapping: strings.Join(setKinds, ","), Raw: label}
+			build := func() interface{} {
+				m := ti.New()
+				if withFields {
+					reflect.ValueOf(m).Elem().FieldByName("Id").Set(reflect.ValueOf(proto.Int32(7)))
+				}
+				for _, k := range kinds {
+					if sel[k] != 0 {
+						if err := csproto.SetExtension(m, ti.Exts[k], d.extGoValue(ti, ti.Exts[k], k, sel[k])); err != nil {
+							panic("set " + k + ": " + err.Error())
+						}
+					}
+				}
+				return m
+			}
+			guard(&e.St, &e.Note, func() {
+				// decoding the owning runtime's bytes does not depend on csproto's Marshal
+				rb, rerr := rt.marshal(build())
+				f2 := ti.New()
+				if rerr == nil && csproto.Unmarshal(rb, f2) == nil && rt.equal(build(), f2) {
+					e.X2 = 1
+				}
+				m := build()
+				b, err := csproto.Marshal(m)
+				if err != nil {
+					e.St, e.Note = "err", err.Error()
+					return
+				}
+				e.Szok = b2i(csproto.Size(build()) == len(b))
+				// MarshalTo into a poisoned buffer of exactly Size() bytes
+				if mt, ok := build().(interface {
+					MarshalTo([]byte) error
+					Size() int
+				}); ok {
+					n := mt.Size()
+					buf := bytes.Repeat([]byte{0xA5}, n+4)
+					if merr := mt.MarshalTo(buf[:n]); merr == nil && bytes.Equal(buf[:n], b) && bytes.Equal(buf[n:], []byte{0xA5, 0xA5, 0xA5, 0xA5}) {
+						e.Mto = 1
+					}
+				} else {
+					e.Mto = 1
+				}
+				f1 := ti.New()
+				if rt.unmarshal(b, f1) == nil && rt.equal(build(), f1) {
+					e.X1 = 1
+				}
+				e.St = "ok"
+			})
+			d.emitD(e)
+		}
+		for _, k := range kinds {
+			for id := 1; id <= 4; id++ {
+				one(map[string]int{k: id}, id%2 == 0, "single")
+			}
+		}
+		all := map[string]int{}
+		for _, k := range kinds {
+			all[k] = 1
+		}
+		one(all, true, "all")
+		one(map[string]int{}, true, "none")
+		for i := 0; i < 10+2*nrand; i++ {
+			sel := map[string]int{}
+			for _, k := range kinds {
+				if d.R.Intn(3) == 0 {
+					sel[k] = 1 + d.R.Intn(4)
+				}
+			}
+			one(sel, d.R.Intn(2) == 0, "random")
+		}
+	}
 }
 
 // zeroSizeCache clears the size-cache word of a generated struct.
